@@ -5,7 +5,7 @@ import itertools
 
 from ..program import AnalysisError, walk_local, dotted
 from ..analysis import Spec, src, const_value
-from ..rules import (substitute_locals, cond_tree, string_template, GWF, EXC, mpt, need_func, stores_to, raise_class,
+from ..rules import (locals_bound_to, substitute_locals, cond_tree, string_template, GWF, EXC, mpt, need_func, stores_to, raise_class,
                      parent_map, kw, is_const, eval_atom, UNKNOWN)
 from . import common, gitcmds
 from .c07 import _explore
@@ -486,7 +486,9 @@ def hard_resets(prog, an, rep):
             ok = f.qname == GWF + '._handle_pull_request' and \
                 isinstance(loop, ast.For) and \
                 isinstance(loop.target, ast.Name) and \
-                loop.target.id == recv and src(loop.iter) == 'wbranches'
+                loop.target.id == recv and src(loop.iter) in \
+                locals_bound_to(f, pred=lambda t: 'create_integration_branches('
+                                in t)
             rep.check(ok, R, '%s: %s.reset(origin)' % (f.qname, recv),
                       f.where(call), 'a branch other than an integration '
                       'branch is hard-reset to its remote state')
